@@ -121,9 +121,9 @@ func TestC03RealNATS(t *testing.T) {
 			}
 			select {
 			case <-shutRet:
-			case <-time.After(15 * time.Second):
+			case <-time.After(60 * time.Second):
 				stopSrv()
-				fail("cycle %d (%s): Shutdown did not return within 15s", ci, how)
+				fail("cycle %d (%s): Shutdown did not return within 60s", ci, how)
 			}
 			select {
 			case err := <-exited:
@@ -131,9 +131,9 @@ func TestC03RealNATS(t *testing.T) {
 					stopSrv()
 					fail("cycle %d (%s): ListenAndServe returned %v", ci, how, err)
 				}
-			case <-time.After(15 * time.Second):
+			case <-time.After(60 * time.Second):
 				stopSrv()
-				fail("cycle %d (%s): ListenAndServe did not return within 15s although the connection is closed: %v", ci, how, nc.IsClosed())
+				fail("cycle %d (%s): ListenAndServe did not return within 60s although the connection is closed: %v", ci, how, nc.IsClosed())
 			}
 			if inflight {
 				select {
